@@ -30,11 +30,15 @@ type controllingSelector struct {
 	agent         *Agent
 	nominatedPair *CandidatePair
 	log           logging.LeveledLogger
+	// lastConfirmedNomination is the highest renomination value whose success
+	// response has been handled; responses to older renominations are stale.
+	lastConfirmedNomination *uint32
 }
 
 func (s *controllingSelector) Start() {
 	s.startTime = time.Now()
 	s.nominatedPair = nil
+	s.lastConfirmedNomination = nil
 }
 
 func (s *controllingSelector) isNominatable(c Candidate) bool {
@@ -203,10 +207,17 @@ func (s *controllingSelector) HandleSuccessResponse(
 
 		// If this is a renomination request (has nomination value), always update the selected pair
 		// If it's a standard nomination (no value), only set if no pair is selected yet
-		if pendingRequest.nominationValue != nil {
-			s.log.Infof("Renomination success response received for pair %s (nomination value: %d), switching to this pair",
-				pair, *pendingRequest.nominationValue)
-			s.agent.setSelectedPair(pair)
+		if value := pendingRequest.nominationValue; value != nil {
+			// Responses can overtake each other: a late response to an older renomination
+			// must not move the selection away from a newer one (last nomination wins).
+			if s.lastConfirmedNomination != nil && *value < *s.lastConfirmedNomination {
+				s.log.Debugf("Ignoring stale renomination success response for pair %s (nomination value: %d)", pair, *value)
+			} else {
+				s.log.Infof("Renomination success response received for pair %s (nomination value: %d), switching to this pair",
+					pair, *value)
+				s.lastConfirmedNomination = value
+				s.agent.setSelectedPair(pair)
+			}
 		} else if selectedPair == nil {
 			s.agent.setSelectedPair(pair)
 		}
